@@ -315,6 +315,7 @@ class repeated_node_property(base_rw_property[RepeatedNodeWrapper[_M], base.RawT
         replace_node(repeated, value.repeated)
         self._inner_field.__set__(instance, value.repeated)
         instance.__dict__[self._attr] = value
+        invalidate_cached_views(instance)
 
 
 def _default_fset(instance: _U, value: _V) -> None:
@@ -352,6 +353,15 @@ class cached_custom_property(custom_property[_V, _U]):
     def __set__(self, instance: _U, value: _V) -> None:
         super().__set__(instance, value)
         instance.__dict__[self._attr] = value
+
+
+def invalidate_cached_views(instance: base.RawTreeModel) -> None:
+    # Views derived from a repeated field (filtered / value / mapping views) are cached on the instance and wrap the
+    # list they were created from; they must be rebuilt once that list is replaced as a whole.
+    for cls in type(instance).__mro__:
+        for name, attr in vars(cls).items():
+            if isinstance(attr, cached_custom_property):
+                instance.__dict__.pop(name, None)
 
 
 class unordered_node_property(base_rw_property[Optional[_V], _U]):
